@@ -72,13 +72,13 @@ CHECKS = {
     "C11": dict(
         level="exploration",
         technique="runtime monitoring: name-keyed layout-meaning extractor before/after reorder_glyphs+save+reload, coverage / PairSet order validator on the reloaded binary, fontTools 'not sorted' warning events as a monitor",
-        text="Generated fonts carrying every GSUB/GPOS lookup type and format (feaLib-compiled plus hand-assembled Context/ChainContext formats 1-3, extension lookups), GDEF attach/caret lists and a COLR table are reordered by six kinds of permutation; after save and reload the name-keyed meaning of every lookup, cmap, hmtx, outlines and COLR must be unchanged and every Coverage (and PairSet) of the saved binary must be in increasing glyph id order. A (type, format) pair that is never generated makes the run inconclusive.",
+        text="Generated fonts carrying every GSUB/GPOS lookup type and format (feaLib-compiled plus hand-assembled Context/ChainContext formats 1-3, extension lookups), GDEF attach/caret lists and a COLR table are reordered by six kinds of permutation; after save and reload the name-keyed meaning of every lookup, cmap, hmtx, outlines and COLR must be unchanged and every Coverage (and PairSet) of the saved binary must be in increasing glyph id order. A (type, format) pair that is never generated makes the run inconclusive. Fonts come with glyf, CFF and CFF2 outlines; chaining, reverse-chaining and contextual-positioning lookups are Extension-wrapped in part of them.",
         design="3/C11",
     ),
     "C13": dict(
         level="exploration",
         technique="runtime monitoring: COLR evaluator vs SVG evaluator on colr_to_svg output for generated paint graphs; captured absl warnings / exceptions for planted unsupported nodes",
-        text="Synthetic COLRv0/v1 fonts with random paint graphs over the supported set (all static transform paints, nested layers, colour-glyph references, group composites, linear/radial gradients, 1-3 palettes, composite outline glyphs) are converted with colr_to_svg under four kinds of viewBox; the returned SVG is evaluated and compared layer by layer with the paint graph's display list, colour conventions (currentColor, var(--colorN)) are checked, and a planted unsupported node must produce an exception or a warning.",
+        text="Synthetic COLRv0/v1 fonts with random paint graphs over the supported set (all static transform paints, nested layers, colour-glyph references, group composites, linear/radial gradients, 1-3 palettes, composite outline glyphs) are converted with colr_to_svg under four kinds of viewBox; the returned SVG is evaluated and compared layer by layer with the paint graph's display list, colour conventions (currentColor, var(--colorN)) are checked, and a planted unsupported node must produce an exception or a warning. The outline glyphs include quadratic blobs, TrueType contours without on-curve points and a composite whose mirrored component overlaps the unmirrored one.",
         design="3/C13",
     ),
     "C14": dict(
@@ -90,7 +90,7 @@ CHECKS = {
     "C19": dict(
         level="exploration",
         technique="runtime monitoring: storage observation (which outline each copy is drawn from) + audit of every miss from contract H2's log of pre-rounding normal forms against four recorded third-party mechanisms",
-        text="Fonts made of congruent copies of one prototype (exact tier: integer coordinates, k*90 degree rotations, mirrors; arbitrary tier: any isometry) are built as COLRv0, COLRv1 and picosvg; every copy must be drawn from one outline, a control build with reuse disabled must store them separately. The property does not hold as stated on this tree (finding F6): each miss is attributed by re-running picosvg's normalisation / affine recovery on the unrounded shapes to K1 rounding straddle, K2 insignificant-y mirror, K3 affine_between failure or K4 threshold straddle; any other miss is a violation.",
+        text="Fonts made of congruent copies of one prototype (exact tier: integer coordinates, k*90 degree rotations, mirrors; arbitrary tier: any isometry) are built as COLRv0, COLRv1 and picosvg; every copy must be drawn from one outline, a control build with reuse disabled must store them separately. The property does not hold as stated on this tree (finding F6): each miss is attributed by re-running picosvg's normalisation / affine recovery on the unrounded shapes to K1 rounding straddle, K2 insignificant-y mirror, K3 affine_between failure or K4 threshold straddle; any other miss is a violation. A related-classes lane holds a polygon, rings over the same outer contour and a near-duplicate as pure integer translations in any order: every class must be stored exactly once.",
         design="3/C19",
     ),
     "C08": dict(
@@ -102,32 +102,32 @@ CHECKS = {
     "C09": dict(
         level="fault_enumeration",
         technique="runtime monitoring with fault injection: single-fault enumeration over every edge of the real ninja graph (fail / kill with truncated output), driver kills at every build statement, process-group SIGKILL, each in a first build and in an incremental rebuild, plus random edit/option/fault histories; convergence oracle = byte equality with a clean build, exit-status oracle from the event log",
-        text="Faults are injected from outside (PATH shims for resvg/pngquant/ninja, sitecustomize for the driver, picosvg and every python -m step). For the quick tier the glyf_colr_1 graph is enumerated completely (every edge x {exit non-zero, killed after truncating its output}, driver killed after the config write and after each build statement, group kill), in a first build and in an incremental rebuild, plus samples of the picosvg and cbdt graphs and 16 random histories; the thorough tier enumerates all three graphs and 160 histories. After each history one fault-free invocation must reproduce the clean build's bytes and every invocation with a fired fault must have exited non-zero. Lane (c): fault-free enumeration of single-source edits and option changes on a populated build directory (one source's quantisation is declined by pngquant), each compared with the clean build.",
+        text="Faults are injected from outside (PATH shims for resvg/pngquant/ninja, sitecustomize for the driver, picosvg and every python -m step). For the quick tier the glyf_colr_1 graph is enumerated completely (every edge x {exit non-zero, killed after truncating its output}, driver killed after the config write and after each build statement, group kill), in a first build and in an incremental rebuild, plus samples of the picosvg and cbdt graphs and 16 random histories; the thorough tier enumerates all three graphs and 160 histories. After each history one fault-free invocation must reproduce the clean build's bytes and every invocation with a fired fault must have exited non-zero. Lane (c): fault-free enumeration of single-source edits and option changes on a populated build directory (one source's quantisation is declined by pngquant), each compared with the clean build. A variable-font lane edits a two-master configuration on a re-used build directory (remove, rename, modify one master, add, remove then add back).",
         design="3/C09",
         note="Trusted base: ninja's mtime/log semantics, the event log written by the shims; edits advance mtime; bytes comparable across directories (C08).",
     ),
     "C17": dict(
         level="exploration",
         technique="runtime monitoring: negative workloads through the real CLI (exit status + presence/bytes/mtime of the output font) and through _generate_color_font (exception required); accepted inputs are handed to the reachability oracle",
-        text="One defect from each class of the statement (duplicate sequence in both naming schemes / hex case, malformed and truncated XML, unknown colour, pattern paint, missing gradient target, unknown spreadMethod, palette index conflict, masters with different source sets, oversize CBDT bitmap) is planted at a random position among 0-4 valid sources, in each applicable format, into a fresh build directory or one that already holds a font; the command must exit non-zero and the output font must be absent or byte- and mtime-identical.",
+        text="One defect from each class of the statement (duplicate sequence in both naming schemes / hex case, malformed and truncated XML, unknown colour, pattern paint, missing gradient target, unknown spreadMethod, palette index conflict, masters with different source sets, oversize CBDT bitmap) is planted at a random position among 0-4 valid sources, in each applicable format, into a fresh build directory or one that already holds a font; the command must exit non-zero and the output font must be absent or byte- and mtime-identical. Unknown colours include rgb() with units or a wrong argument count.",
         design="3/C17",
     ),
     "C20": dict(
         level="exploration",
         technique="runtime monitoring: per-option observable map read from fonts written by the real CLI over the full (option, value, way) matrix, and byte equality of joint vs separate builds for multi-config invocations",
-        text="Every FontConfig option with a user-visible observable is given by flag, by file, by both with different values (flag must win) and not at all (default), on small source sets in the format family it applies to; the observable is read from the font the CLI wrote. For every listed option pair two TOML configurations sharing sources are built in one invocation and each font must equal, byte for byte, the font its configuration produces alone. The whole matrix (185 cases, ~210 CLI builds) is enumerated on every run. The transform option is also observed in the OT-SVG and glyf families, and ten options are re-given with another value on a second run in a build directory that already holds a font.",
+        text="Every FontConfig option with a user-visible observable is given by flag, by file, by both with different values (flag must win) and not at all (default), on small source sets in the format family it applies to; the observable is read from the font the CLI wrote. For every listed option pair two TOML configurations sharing sources are built in one invocation and each font must equal, byte for byte, the font its configuration produces alone. The whole matrix (185 cases, ~210 CLI builds) is enumerated on every run. The transform option is also observed in the OT-SVG and glyf families, and ten options are re-given with another value on a second run in a build directory that already holds a font. In every COLRv1 case where clipbox_quantization is not given the clip boxes must sit on multiples of round(2% of the font's upem).",
         design="3/C20",
     ),
     "C12": dict(
         level="exploration",
         technique="runtime monitoring: before/after comparators (name-keyed cmap, advances, outlines, layout meaning, original colour table) + COLR-vs-SVG display-list oracle + bitmap provenance + structural validator on fonts written by the real maximum_color CLI",
-        text="Inputs are fonts nanoemoji itself built (COLRv1, COLRv0, picosvg, with GSUB ligatures) and synthetic third-party-style COLRv1 fonts (feaLib kerning, 1-3 palettes, no space glyph); maximum_color runs under ninja with combinations of --bitmaps, --colr_version and --keep_glyph_names. In the output the original colour table, cmap, advances, outlines and layout meaning must be unchanged (names recovered through the build's frozen-name intermediates when they are stripped), the complementary table must paint the same display list for every colour glyph reached from the same codepoints, every CBDT bitmap must be the PNG made for that glyph id, and the C07 validator must pass.",
+        text="Inputs are fonts nanoemoji itself built (COLRv1, COLRv0, picosvg, with GSUB ligatures) and synthetic third-party-style COLRv1 fonts (feaLib kerning, 1-3 palettes, no space glyph); maximum_color runs under ninja with combinations of --bitmaps, --colr_version and --keep_glyph_names. In the output the original colour table, cmap, advances, outlines and layout meaning must be unchanged (names recovered through the build's frozen-name intermediates when they are stripped), the complementary table must paint the same display list for every colour glyph reached from the same codepoints, every CBDT bitmap must be the PNG made for that glyph id, and the C07 validator must pass. Inputs also come with CFF/CFF2 outlines, with several independent shape-sharing groups (multi-glyph SVG documents across glyph id 8/16), with two blank glyphs between painted ones (three bitmap runs), with hhea metrics that differ from the typo metrics, and as minimal third-party fonts without spare glyphs (known finding F26).",
         design="3/C12",
     ),
     "C18": dict(
         level="exploration",
         technique="runtime monitoring: COLR evaluator at variation locations (gvar glyph sets, VarStore deltas for variable paints and ClipBox format 2) vs static builds of each master; interior-location clip-box containment",
-        text="Multi-master configurations whose masters are consistent deformations of one prototype are built by the real CLI (per-master UFOs, write_variable_font); at every master location the VF's display list, advances and clip-box presence are compared with a static build of that master, the default location is the default master, and at t in {0.25,0.5,0.75} between neighbouring masters the clip box in force must contain the geometry at that location. 'Every location' is sampled, not enumerated. One or two axes (declared in either tag order), 2-4 masters with designer-style names and optional same-leaf source directories; a third of the cases edit a non-default master, re-run in the same build directory and compare that master again.",
+        text="Multi-master configurations whose masters are consistent deformations of one prototype are built by the real CLI (per-master UFOs, write_variable_font); at every master location the VF's display list, advances and clip-box presence are compared with a static build of that master, the default location is the default master, and at t in {0.25,0.5,0.75} between neighbouring masters the clip box in force must contain the geometry at that location. 'Every location' is sampled, not enumerated. One or two axes (declared in either tag order), 2-4 masters with designer-style names and optional same-leaf source directories; a third of the cases edit a non-default master, re-run in the same build directory and compare that master again. Masters hold rectangles, polygons and ellipses, sometimes a shape that overhangs the viewBox in every master.",
         design="3/C18",
     ),
 }
